@@ -99,7 +99,8 @@ deriving DecidableEq, Repr
 inductive ROp | recv | dropRecv
 deriving DecidableEq, Repr
 
-/-- program counter of `SampleQueueReceiver::recv` / `Drop for SampleQueueReceiver` (pipeline.rs) -/
+/-- program counter of `ChannelMediaSource::next_sample` → `SampleQueueReceiver::recv` and of
+`Drop for SampleQueueReceiver` (pipeline.rs) -/
 inductive RPc
   | idle
   | dead                                   -- receiver dropped
@@ -143,6 +144,8 @@ structure St where
   cp : CPc
   sp : SPc
   rp : RPc
+  /-- `ChannelMediaSource::ended`: the wrapper's own end-of-stream latch (pipeline.rs) -/
+  rended : Bool
   -- ghost
   live : List Nat                 -- producers holding a handle (`fetch_sub` not yet executed)
   attempts : List Val             -- samples whose processing started (at lock acquisition), in order
@@ -156,7 +159,7 @@ structure St where
 def St.init (v : Variant) (cap W start : Nat) : St :=
   { v, ring := Ring.init cap W start, plock := none, poplock := none, closed := false, ended := false,
     senders := trackInitSenders, ntf := ⟨false, 0, false, false⟩,
-    pp := fun i => if i = 0 then .idle else .none, cp := .idle, sp := .idle, rp := .idle,
+    pp := fun i => if i = 0 then .idle else .none, cp := .idle, sp := .idle, rp := .idle, rended := false,
     live := [0], attempts := [], rejected := [], droppedOld := [], recvd := [], pres := [], cres := [],
     stopCalled := false }
 
@@ -298,7 +301,10 @@ def stepR (s : St) (op : Option ROp) : St :=
   if s.v.pipe = false then s else
   match s.rp with
   | .idle => match op with
-    | some .recv => { s with rp := .lock }
+    | some .recv =>
+      -- `ChannelMediaSource::next_sample`: `if self.ended { return Err(EndOfStream) }` (a local of the
+      -- consumer, no shared access), else `self.receiver.recv().await`
+      if s.rended then { s with cres := s.cres ++ [.eos] } else { s with rp := .lock }
     | some .dropRecv => { s with rp := .stClosed }
     | none => s
   | .dead => s
@@ -309,7 +315,7 @@ def stepR (s : St) (op : Option ROp) : St :=
     | (r, .cont p') => { s with ring := r, rp := .pop cl p' }
     | (r, .done x) => { s with ring := r, poplock := none, recvd := s.recvd ++ [x], rp := .idle, cres := s.cres ++ [.ok x] }
     | (r, .empty) =>
-      if cl then { s with ring := r, poplock := none, rp := .idle, cres := s.cres ++ [.eos] }
+      if cl then { s with ring := r, poplock := none, rp := .idle, rended := true, cres := s.cres ++ [.eos] }
       else { s with ring := r, poplock := none, rp := .mkNtf }
   | .mkNtf => { s with rp := .emptyClosed s.ntf.gen }
   | .emptyClosed g => if s.ring.isEmpty && !s.closed then { s with rp := .await1 g } else { s with rp := .lock }
